@@ -45,6 +45,12 @@ func checkC08(c *Ctx) {
 				m, k = x.Map, x.Key
 			case *ssa.Lookup:
 				m, k = x.X, x.Index
+			case *ssa.Call:
+				if b, isB := x.Call.Value.(*ssa.Builtin); isB && b.Name() == "delete" && len(x.Call.Args) == 2 {
+					m, k = x.Call.Args[0], x.Call.Args[1]
+				} else {
+					return
+				}
 			default:
 				return
 			}
